@@ -162,7 +162,9 @@ def _clock_spec(ch):
 
 
 def gen_calibration(ch):
-    names = [n for n in CAL_PROJECTS if n in _CORPUS]
+    from atomsim import corpus as _c
+
+    names = [n for n in CAL_PROJECTS if n in _CORPUS] + _c.generated_names()
     name = ch.pick("project", names)
     P = _CORPUS[name].project()
     parset = P.parsets[0]
@@ -234,7 +236,9 @@ def gen_calibration(ch):
 
 
 def gen_optimization(ch):
-    names = [n for n in OPT_PROJECTS if n in _CORPUS and _CORPUS[n].meta["has_progset"]]
+    from atomsim import corpus as _c
+
+    names = [n for n in OPT_PROJECTS if n in _CORPUS and _CORPUS[n].meta["has_progset"]] + [n for n in _c.generated_names() if _CORPUS[n].meta["has_progset"]]
     name = ch.pick("project", names)
     P = _CORPUS[name].project()
     progset = P.progsets[0]
@@ -295,7 +299,9 @@ def gen_optimization(ch):
 
 
 def gen_reconcile(ch):
-    names = [n for n in OPT_PROJECTS if n in _CORPUS and _CORPUS[n].meta["has_progset"]]
+    from atomsim import corpus as _c
+
+    names = [n for n in OPT_PROJECTS if n in _CORPUS and _CORPUS[n].meta["has_progset"]] + [n for n in _c.generated_names() if _CORPUS[n].meta["has_progset"]]
     name = ch.pick("project", names)
     P = _CORPUS[name].project()
     spec = {
